@@ -1,8 +1,9 @@
 CONSTANTS
+  SeriesFirst = FALSE
   CommitSeqBeforeWrite = FALSE
   FreezeBeforeMetaFlush = FALSE
 SPECIFICATION TraceSpec
-INVARIANTS AckNotAhead NoLoss NoReapply FlushedResolves NoIdReuse
+INVARIANTS SeriesIndexed AckNotAhead NoLoss NoReapply FlushedResolves NoIdReuse
 CONSTRAINT HighWater
 POSTCONDITION TraceAccepted
 CHECK_DEADLOCK FALSE
